@@ -29,7 +29,7 @@ var skipInit = map[string]bool{
 	"os/exec": true, "net": true, "internal/testlog": true, "testing": true,
 	"math/rand": true, "math/rand/v2": true, "crypto/rand": true, "os/signal": true,
 	"internal/runtime/maps": true, "fmt": true, "os/user": true, "runtime/debug": true,
-	"internal/reflectlite": true, "internal/oserror": true, "context": true, "net/netip": true, "unique": true, "net/http": true, "mime": true, "crypto/tls": true, "crypto/x509": true, "net/http/internal": true, "golang.org/x/net/http/httpguts": true, "compress/gzip": true,
+	"internal/reflectlite": true, "internal/oserror": true, "context": true, "net/netip": true, "unique": true, "net/http": true, "crypto/tls": true, "crypto/x509": true, "net/http/internal": true, "golang.org/x/net/http/httpguts": true, "compress/gzip": true,
 	vpPath: true,
 }
 
